@@ -54,6 +54,8 @@ def feat(rng, gtf=False):
     if rng.random() < 0.12:
         # attributes whose key is also the name of a column
         attrs.append([rng.choice(["score", "source", "strand"]), [rng.choice(["0.9", "nr", "+"])]])
+    if rng.random() < 0.1:
+        attrs.append(["pseudo", []])  # a flag without a value (`;pseudo` / `pseudo "";`): a key like any other
     if rng.random() < 0.08:
         cols[3] = cols[4] = None  # '.' coordinates
     extra = []
